@@ -62,8 +62,16 @@ func buildC06(tier string) *core.Plan {
 			d := plain[i]
 			c.Eval()
 			c.Trans(2)
-			outs, err := evalTree(d)
+			p := newParser()
+			var outs []any
+			err := p.MergeDocument(newDoc("d0", d))
+			if err == nil {
+				outs, err = p.OutputDocuments()
+			}
 			c06Expect(c, "identity", d, nil, outs, err, c06Want(d))
+			if err == nil {
+				c06Bytes(c, "identity", d, nil, p, c06Want(d))
+			}
 		}}
 
 	escapeRun := func(set []any) func(c *core.Ctx, i int64) {
@@ -72,8 +80,16 @@ func buildC06(tier string) *core.Plan {
 			dd := doubleDollar(d)
 			c.Eval()
 			c.Trans(2)
-			outs, err := evalTree(dd)
+			p0 := newParser()
+			var outs []any
+			err := p0.MergeDocument(newDoc("d0", dd))
+			if err == nil {
+				outs, err = p0.OutputDocuments()
+			}
 			c06Expect(c, "escape-alone", d, nil, outs, err, c06Want(d))
+			if err == nil {
+				c06Bytes(c, "escape-alone", d, nil, p0, c06Want(d))
+			}
 			// layered as the child of several bases
 			for _, base := range c06Bases(dd) {
 				c.Eval()
@@ -102,6 +118,9 @@ func buildC06(tier string) *core.Plan {
 					outs, err = p.OutputDocuments()
 				}
 				c06Expect(c, "escape-layered", d, base, outs, err, want)
+				if err == nil {
+					c06Bytes(c, "escape-layered", d, base, p, want)
+				}
 			}
 		}
 	}
@@ -142,6 +161,14 @@ func buildC06(tier string) *core.Plan {
 				outs, err = p.OutputDocuments()
 			}
 			c06Expect(c, "escape-files", d, "a.json", outs, err, c06Want(d))
+			if err == nil {
+				c.Trans(1)
+				so, se, code, rerr := runTool(dir, "bkl", "-f", "json", "a.b.json")
+				got, perr := parseJSONStream(so)
+				if rerr != nil || code != 0 || perr != nil || !core.EqualLoose(got, c06Want(d)) {
+					c.Fail("escape-cli", "wrong-cli-output", core.Canon(d), map[string]any{"stdout": so, "stderr": se, "exit": code, "want": c06Want(d)})
+				}
+			}
 		}})
 
 	return &core.Plan{
@@ -175,6 +202,40 @@ func c06Bases(dd any) []any {
 		return []any{[]any{}, []any{0, "$$k"}}
 	default:
 		return []any{map[string]any{}, nil}
+	}
+}
+
+// c06Bytes re-observes the same evaluation through Parser.Output (the path the
+// CLI and the wrapper use) and compares the decoded bytes with want.
+func c06Bytes(c *core.Ctx, oracle string, d, base any, p interface {
+	Output(string) ([]byte, error)
+}, want []any) {
+	wit := core.Canon(d)
+	if base != nil {
+		wit += " over " + core.Canon(base)
+	}
+	for _, f := range []string{"json", "yaml"} {
+		c.Trans(1)
+		b, err := p.Output(f)
+		if err != nil {
+			c.Fail(oracle+"-bytes", "error", wit, map[string]any{"format": f, "error": errStr(err)})
+			return
+		}
+		var got []any
+		var perr error
+		if f == "json" {
+			got, perr = parseJSONStream(string(b))
+		} else if len(want) == 1 {
+			var v any
+			v, perr = c14ParseText("yaml", string(b))
+			got = []any{v}
+		} else {
+			continue
+		}
+		if perr != nil || !core.EqualLoose(got, want) {
+			c.Fail(oracle+"-bytes", "wrong-output-bytes", wit, map[string]any{"format": f, "bytes": string(b), "want": want})
+			return
+		}
 	}
 }
 
